@@ -48,6 +48,12 @@ class Ref:
             self.next_in[si] = seq + 1
         return True
 
+    def replace(self, si, d, seq, m):
+        """A retransmission journaled under a number already used: takes the row's place (as the
+        newest row); the counters are not touched."""
+        self.rows = [(s, dd, q, mm) for (s, dd, q, mm) in self.rows if not (s == si and dd is d and q == seq)]
+        self.rows.append((si, d, seq, m))
+
     def query(self, si, d, lo, hi):
         sel = [(q, m) for (s, dd, q, m) in self.rows if s == si and dd is d and lo <= q and q <= hi]
         out = []
